@@ -132,7 +132,6 @@ func main() {
 	var mu sync.Mutex
 	counts := map[string]int{}
 	bump := func(k string) { mu.Lock(); counts[k]++; mu.Unlock() }
-	bumpN := func(k string, n int) { mu.Lock(); counts[k] += n; mu.Unlock() }
 	samples := &vx.Samples{N: 6}
 	transitions := 0
 
@@ -502,7 +501,6 @@ func main() {
 			twoPkg++
 		}
 	}
-	_ = bumpN
 	py.close()
 	driver.Close()
 	ws.Close()
